@@ -66,7 +66,7 @@ def fvInfoOf (data : Bytes) (blocks : List Block) (fvOffset : Nat) (resizable : 
   let length := rd data 32 8
   let headerLen := rd data 48 2
   let eho := rd data 52 2
-  let hasExt : Bool := eho ≠ 0 ∧ length ≥ 20 ∧ eho < length - 20
+  let hasExt : Bool := eho ≠ 0 ∧ length ≥ 20 ∧ eho ≤ length - 20
   let ehs := if hasExt then rd data (eho + 16) 4 else 0
   { fsGuid := slice data 16 16, length := length, signature := rd data 40 4, attrs := rd data 44 4,
     headerLen := headerLen, checksum := rd data 50 2, extHeaderOffset := eho,
